@@ -26,6 +26,8 @@ def calendar_bearing(ctx: Ctx, tname: Any) -> bool:
     c = ctx.M.cls(tname, required=False)
     if c is None or c.name == "CalendarSystem":
         return False
+    if c.name == "_YearMonthDayCalendar":
+        return True  # carries the calendar ordinal
     f = ctx.M.find_method(c, COMPONENT)
     return f is not None and f.kind == "property"
 
@@ -46,17 +48,12 @@ def in_scope_sources(ctx: Ctx, f: Func) -> list[str]:
 
 
 def governed_by_none_test(call: ast.Call) -> bool:
-    n: Any = call
-    while n is not None:
-        par = getattr(n, "_parent", None)
-        if isinstance(par, (ast.If, ast.IfExp)):
-            for c in ast.walk(par.test):
-                if isinstance(c, ast.Compare) and isinstance(c.left, ast.Name) and c.left.id == COMPONENT and any(isinstance(o, (ast.Is, ast.IsNot)) for o in c.ops):
-                    return True
-        if isinstance(par, (ast.FunctionDef, ast.Lambda)):
-            break
-        n = par
-    return False
+    """The call executes only when no calendar was supplied: `calendar is None` is a *fact* at the call (an enclosing test or an
+    earlier `if calendar is not None: return ...`), not merely mentioned in a disjunction that other conditions can satisfy."""
+    from .exc import facts_at
+
+    facts = facts_at(call)
+    return (COMPONENT, "is", "None") in facts or ("None", "is", COMPONENT) in facts
 
 
 def in_default_expr(call: ast.Call, f: Func) -> bool:
